@@ -125,4 +125,56 @@ theorem nested_items (lineLen col : Nat) : ∀ (is : Items), flatOneLineItems is
       simp [nestedFlatItems, nested_item lineLen col i h.1 hi.1, nested_items lineLen col rest h.2 hi.2]
 end
 
+/-! ## the render functions on the single-line path -/
+
+theorem append_single (a w : Nat) : Out.append [a] [w] = [a + w] := by
+  simp [Out.append, Out.emit]
+
+mutual
+theorem render_item_flat (o : Opt) (col : Nat) : ∀ (i : Item), flatOneLine i = true →
+    lineLength i ≤ o.lineLen - col → renderItem o i false false col = some [flatWidth i]
+  | .char w, _, _ => by simp [renderItem, flatWidth]
+  | .optChar w, _, _ => by simp [renderItem, flatWidth]
+  | .str w more, h, _ => by
+      have : more = [] := by simpa [flatOneLine] using h
+      subst this
+      simp [renderItem, flatWidth]
+  | .lineBreak, h, _ => by simp [flatOneLine] at h
+  | .error, h, _ => by simp [flatOneLine] at h
+  | .brk b, _, _ => by simp [renderItem, flatWidth]
+  | .group is, h, hle => by
+      have hjs : flatOneLineItems is = true := by simpa [flatOneLine] using h
+      have hle' : lineLengthItems is ≤ o.lineLen - col := by simpa [lineLength] using hle
+      have h1 : tooLong o.lineLen col is = false := by simp [tooLong]; omega
+      have h2 := anyForce_false is hjs
+      have h3 := lastBlock_false is hjs
+      have := flat_items o col is hjs hle' 0
+      simp only [renderItem, h1, h2, h3, Bool.or_self, Bool.false_eq_true, if_false, flatWidth]
+      simpa using this
+theorem flat_items (o : Opt) (col : Nat) : ∀ (is : Items), flatOneLineItems is = true →
+    lineLengthItems is ≤ o.lineLen - col →
+    ∀ a, flatItems o is col [a] = some [a + flatWidthItems is]
+  | .nil, _, _, a => by simp [flatItems, flatWidthItems]
+  | .cons i rest, h, hle, a => by
+      simp only [flatOneLineItems, Bool.and_eq_true] at h
+      have hi : lineLength i ≤ o.lineLen - col ∧ lineLengthItems rest ≤ o.lineLen - col := by
+        cases i with
+        | brk b =>
+          have hb : b.forces = false := by simpa [flatOneLine] using h.1
+          simp only [lineLengthItems, hb, Bool.false_eq_true, if_false] at hle
+          simp only [lineLength]
+          omega
+        | lineBreak => simp [flatOneLine] at h
+        | error => simp [flatOneLine] at h
+        | char w => simp only [lineLengthItems] at hle; simp only [lineLength]; omega
+        | optChar w => simp only [lineLengthItems] at hle; simp only [lineLength]; omega
+        | str w l => simp only [lineLengthItems] at hle; simp only [lineLength]; omega
+        | group js => simp only [lineLengthItems] at hle; simp only [lineLength]; omega
+      have hr := render_item_flat o col i h.1 hi.1
+      have hrest := flat_items o col rest h.2 hi.2 (a + flatWidth i)
+      simp only [flatItems, hr, append_single, hrest, flatWidthItems]
+      congr 2
+      omega
+end
+
 end KotoVerif.C11.LayoutLemmas
